@@ -346,6 +346,12 @@ Proof.
   destruct HI as (H1 & _). apply Nat.leb_le in H1. rewrite H1 in H. exact H.
 Qed.
 
+Lemma make_from_obj_refines (Q : slot -> Prop) c src st' o : GInv Q src -> make_from_obj None c src = (st', o) ->
+  if length (abs src) <=? c then o = Done /\ abs st' = abs src /\ cap st' = c else o = Raised.
+Proof.
+  intros HI H. unfold make_from_obj in H. rewrite (iterate_abs Q) in H by auto. now apply make_from_refines in H.
+Qed.
+
 Lemma move_ctor_refines src :
   abs (fst (move_ctor src)) = abs src /\ cap (fst (move_ctor src)) = cap src /\
   abs (snd (move_ctor src)) = [] /\ cap (snd (move_ctor src)) = cap src.
